@@ -28,7 +28,7 @@ VERIF = os.path.dirname(os.path.dirname(os.path.abspath(__file__)))
 REPO = os.environ.get("VT_REPO", "/repo")
 WORK = os.path.join(VERIF, ".work")
 CLANG_RES = "/usr/lib/llvm-14/lib/clang/14.0.6/include"
-CXXFLAGS = ["-std=c++14", "-I" + os.path.join(REPO, "include"), "-I" + os.path.join(VERIF, "spec"),
+CXXFLAGS = ["-std=c++14", "-fno-access-control", "-I" + os.path.join(REPO, "include"), "-I" + os.path.join(VERIF, "spec"),
             "-I" + os.path.join(VERIF, "units")]
 NCPU = int(os.environ.get("VT_CPUS", "16"))
 DEFAULT_TIMEOUT = {"quick": 240, "thorough": 900}
@@ -58,7 +58,7 @@ def run(cmd, timeout=None, cwd=None, mem=True):
 
 # ----------------------------------------------------------------------------- spec files
 CLAUSES = ("requires", "ensures", "assigns", "frees")
-LOOP_CLAUSES = ("invariant", "assigns", "decreases")
+LOOP_CLAUSES = ("invariant", "assigns", "decreases", "ghost")
 
 
 class Spec:
@@ -149,6 +149,8 @@ def parse_spec(unit):
                 cur["object_bits"] = int(rest)
             elif w == "noflag":
                 cur.setdefault("noflags", []).append(rest)
+            elif w == "define":
+                cur.setdefault("goto_cc", []).extend(["-D" + x for x in rest.split()])
             elif w == "goto_cc":
                 cur.setdefault("goto_cc", []).extend(rest.split())
             elif w == "nocover":
@@ -241,7 +243,13 @@ def splice(u, sp, job, workdir):
             if m < 0:
                 raise Undecided("loop contract %s#%d: loop marker missing (must-fire)" % (key, k))
             cl = ""
+            ghost = "".join(" /*GHOST*/ " + t for kind, t in clauses if kind == "ghost")
+            if ghost:
+                b = text.find("{", m)
+                text = text[:b + 1] + ghost + text[b + 1:]
             for kind, t in clauses:
+                if kind == "ghost":
+                    continue
                 cl += {"invariant": "__CPROVER_loop_invariant(%s)", "assigns": "__CPROVER_assigns(%s)", "decreases": "__CPROVER_decreases(%s)"}[kind] % t + "\n"
             text = text[:m] + cl + text[m + len(marker):]
             used_loops.add((key, k))
@@ -477,7 +485,7 @@ def native_build(unit, workdir, sanitize=True):
     exe = os.path.join(workdir, unit + ".native")
     if os.path.exists(exe):
         return exe
-    cmd = ["g++", "-std=c++14", "-O0", "-g", "-DVT_NATIVE", "-w"] + CXXFLAGS[1:] + \
+    cmd = ["g++", "-O0", "-g", "-DVT_NATIVE", "-w"] + CXXFLAGS + \
           (["-fsanitize=address,undefined", "-fno-sanitize-recover=undefined", "-fno-omit-frame-pointer"] if sanitize else []) + \
           [os.path.join(VERIF, "units", unit + ".cpp"), os.path.join(VERIF, "spec", "vt_native.cpp"), "-o", exe]
     rc, so, se, dt = run(cmd, timeout=600, mem=False)
